@@ -13,7 +13,7 @@ def trace_streams(tier, soft=True, classes=("conflict", "small", "dense", "greed
                 ("conflict", f, "yield", "debug", 300 * k), ("conflict", f, "gated:lifo", "debug", 200 * k),
                 ("conflict", f, "gated:random", "debug", 200 * k)]
     if "conflict" in classes:
-        out += [("conflictx", f, "sync", "debug", 400 * k)]
+        out += [("conflictx", f, "sync", "debug", 400 * k), ("lostassert", f, "sync", "debug", 200 * k)]
     if "small" in classes:
         out += [("small", f, "sync", "debug", 600 * k)]
     if "dense" in classes:
